@@ -50,6 +50,16 @@ type Contract struct {
 	Pure      bool
 	File      string
 	Line      int
+	Assumes   []Clause    // function-level assumptions (spec definitions / axioms), listed in evidence
+	Ghosts    []GhostStmt // ghost assignments at anchors
+}
+
+// GhostStmt: `ghost <anchor>: <lvalue> = <expr>`; anchors: entry, return, loop <k> end
+type GhostStmt struct {
+	Anchor string
+	LHS    Expr
+	RHS    Expr
+	Src    string
 }
 
 type SpecFunc struct {
@@ -76,10 +86,12 @@ type PoolInv struct {
 }
 
 type SpecFile struct {
-	Contracts map[string]*Contract
-	Specs     map[string]*SpecFunc
-	Lemmas    []*Lemma
-	Pools     []*PoolInv
+	Contracts   map[string]*Contract
+	Specs       map[string]*SpecFunc
+	Lemmas      []*Lemma
+	Pools       []*PoolInv
+	UFuns       map[string]*UFun
+	GhostFields map[string]string // "Type.field" -> sort
 }
 
 // ---------------------------------------------------------------------------
@@ -486,7 +498,7 @@ func splitTopComma(s string) []string {
 }
 
 func loadSpecFiles(root string) (*SpecFile, []string, error) {
-	sf := &SpecFile{Contracts: map[string]*Contract{}, Specs: map[string]*SpecFunc{}}
+	sf := &SpecFile{Contracts: map[string]*Contract{}, Specs: map[string]*SpecFunc{}, UFuns: map[string]*UFun{}, GhostFields: map[string]string{}}
 	var files []string
 	err := filepath.Walk(root, func(path string, info os.FileInfo, err error) error {
 		if err != nil {
@@ -587,6 +599,80 @@ func loadSpecFiles(root string) (*SpecFile, []string, error) {
 					}
 					cur.Decreases = append(cur.Decreases, e)
 				}
+			case "assume":
+				if cur == nil {
+					return nil, nil, fmt.Errorf("%s: clause outside func", where)
+				}
+				c, err := mk(rest)
+				if err != nil {
+					return nil, nil, err
+				}
+				cur.Assumes = append(cur.Assumes, c)
+			case "ghost":
+				// ghost <anchor>: lhs = rhs      (inside a func block)
+				i := strings.Index(rest, ":")
+				j := strings.Index(rest, "=")
+				if cur == nil || i < 0 || j < i {
+					return nil, nil, fmt.Errorf("%s: bad ghost statement", where)
+				}
+				// find the assignment '=' that is not part of ==, <=, >=, !=
+				k := -1
+				body := rest[i+1:]
+				for x := 0; x < len(body); x++ {
+					if body[x] == '=' && (x+1 >= len(body) || body[x+1] != '=') && (x == 0 || !strings.ContainsRune("=<>!", rune(body[x-1]))) {
+						k = x
+						break
+					}
+				}
+				if k < 0 {
+					return nil, nil, fmt.Errorf("%s: bad ghost statement", where)
+				}
+				lhs, err := parseSpecExpr(strings.TrimSpace(body[:k]))
+				if err != nil {
+					return nil, nil, fmt.Errorf("%s: %v", where, err)
+				}
+				rhs, err := parseSpecExpr(strings.TrimSpace(body[k+1:]))
+				if err != nil {
+					return nil, nil, fmt.Errorf("%s: %v", where, err)
+				}
+				cur.Ghosts = append(cur.Ghosts, GhostStmt{Anchor: strings.TrimSpace(rest[:i]), LHS: lhs, RHS: rhs, Src: rest})
+			case "ghostfun":
+				// ghostfun name(int, bytes, ...) bool|int
+				i := strings.Index(rest, "(")
+				j := strings.LastIndex(rest, ")")
+				if i < 0 || j < i {
+					return nil, nil, fmt.Errorf("%s: bad ghostfun", where)
+				}
+				uf := &UFun{Name: strings.TrimSpace(rest[:i])}
+				for _, a := range splitTopComma(rest[i+1 : j]) {
+					switch a {
+					case "int":
+						uf.ArgSorts = append(uf.ArgSorts, SInt)
+					case "bool":
+						uf.ArgSorts = append(uf.ArgSorts, SBool)
+					case "bytes":
+						uf.ArgSorts = append(uf.ArgSorts, SBytes, SInt, SInt)
+					default:
+						return nil, nil, fmt.Errorf("%s: bad ghostfun argument sort %q", where, a)
+					}
+				}
+				uf.Ret = SInt
+				if strings.TrimSpace(rest[j+1:]) == "bool" {
+					uf.Ret = SBool
+				}
+				sf.UFuns[uf.Name] = uf
+				cur = nil
+			case "ghostfield":
+				parts := strings.Fields(rest)
+				if len(parts) != 2 {
+					return nil, nil, fmt.Errorf("%s: bad ghostfield", where)
+				}
+				sort := SInt
+				if parts[1] == "bool" {
+					sort = SBool
+				}
+				sf.GhostFields[pkg+"."+parts[0]] = sort
+				cur = nil
 			case "inline":
 				cur.Inline = true
 			case "pure":
